@@ -32,17 +32,33 @@ func checkC10(w *World, c *Check) {
 			var dedupArgs []Value
 			var dedupC *Term = TFalse
 			var dedupRes Value
+			var rfaC *Term = TFalse
+			var rfaAtDedup *Term
 			ex.hooks["ItemCollectionDeduplication"] = func(ex *Exec, st *State, f *ssa.Function, a []Value) (Value, bool) {
 				dedupArgs = append(dedupArgs, a[0])
 				dedupC = Or(dedupC, st.pc)
+				rfaAtDedup = rfaC
 				dedupRes = ex.symValue(f.Signature.Results().At(0).Type(), varNamer("dedup"), false)
 				return dedupRes, true
 			}
-			var rfaC *Term = TFalse
 			var rfaItems Value
 			ex.hooks["removeFromAudience"] = func(ex *Exec, st *State, f *ssa.Function, a []Value) (Value, bool) {
 				rfaC = Or(rfaC, st.pc)
 				rfaItems = a[1]
+				// its effect (verified on its own below): the five addressing lists are replaced by filtered ones
+				if p, ok := a[0].(*PtrVal); ok {
+					AT := w.Type("Activity")
+					for _, fname := range []string{"To", "Bto", "CC", "BCC", "Audience"} {
+						fp := &PtrVal{}
+						for _, al := range p.Alts {
+							if al.O != nil {
+								fp.Alts = append(fp.Alts, PtrAlt{C: al.C, O: al.O, Path: append(append([]PathElem{}, al.Path...), PathElem{Field: fieldIndex(AT, fname)})})
+							}
+						}
+						ex.objSeq++
+						ex.store(st, fp, ex.symValue(w.Type("ItemCollection"), varNamer(fmt.Sprintf("filtered.%s!%d", fname, ex.objSeq)), false), f.Pos())
+					}
+				}
 				return ErrNil, true
 			}
 			st := newState()
@@ -103,6 +119,10 @@ func checkC10(w *World, c *Check) {
 				typ := sv.F[fieldIndex(S, "Type")].(*Term)
 				objNonNil := Not(ex.ifaceEq(sv.F[fieldIndex(S, "Object")].(*IfaceVal), &IfaceVal{Alts: []IfaceAlt{{C: TTrue}}}))
 				c.Add(&Obligation{Name: grp + "/block/removal-runs-iff-block", Group: grp, Common: common, Goal: Iff(rfaC, And(Eq(typ, StrLit("Block")), objNonNil)), Pos: pos, Funcs: fns, Replay: rp})
+				if rfaAtDedup != nil {
+					// the removal has already happened when the lists are de-duplicated (and the audience copy is taken after it)
+					c.Add(&Obligation{Name: grp + "/block/removal-precedes-deduplication", Group: grp, Common: common, Goal: Iff(rfaAtDedup, rfaC), Pos: pos, Funcs: fns, Replay: rp})
+				}
 				if rfaItems != nil {
 					its := rfaItems.(*SliceVal)
 					first := ex.readElem(st, its, IntLit(0)).(*IfaceVal)
@@ -120,9 +140,12 @@ func checkC10(w *World, c *Check) {
 	// removeFromAudience: every addressing list is filtered
 	guard(c, "C10/removeFromAudience", func() {
 		ex := w.NewExec()
+		var rets []Value
 		ex.installRecorder("removeFromCollection", func(ex *Exec, st *State, f *ssa.Function, a []Value) Value {
 			ex.objSeq++
-			return ex.symValue(f.Signature.Results().At(0).Type(), varNamer(fmt.Sprintf("filtered!%d", ex.objSeq)), false)
+			r := ex.symValue(f.Signature.Results().At(0).Type(), varNamer(fmt.Sprintf("filtered!%d", ex.objSeq)), false)
+			rets = append(rets, r)
+			return r
 		})
 		st := newState()
 		T := w.Type("*Activity")
@@ -136,13 +159,14 @@ func checkC10(w *World, c *Check) {
 			k := fieldIndex(S, f)
 			before := sv.F[k].(*SliceVal)
 			var called []*Term
-			for _, rec := range ex.calls {
-				if q, ok := rec.Args[0].(*SliceVal); ok {
-					called = append(called, And(rec.C, ex.sliceIdentical(q, before)))
+			for ri, rec := range ex.calls {
+				if q, ok := rec.Args[0].(*SliceVal); ok && ri < len(rets) {
+					// the list was handed to the filter and the property now holds exactly what the filter returned
+					called = append(called, And(rec.C, ex.sliceIdentical(q, before), ex.sliceIdentical(final.F[k].(*SliceVal), rets[ri].(*SliceVal))))
 				}
 			}
 			c.Add(&Obligation{Name: "C10/removeFromAudience/filters=" + f, Group: "C10/removeFromAudience", Common: common,
-				Goal: Implies(ex.isSet(before), And(Or(called...), Not(ex.sliceIdentical(final.F[k].(*SliceVal), before)))), Pos: "removeFromAudience", Funcs: []string{"removeFromAudience"}, Replay: c10Replay("Activity")})
+				Goal: Implies(ex.isSet(before), Or(called...)), Pos: "removeFromAudience", Funcs: []string{"removeFromAudience"}, Replay: c10Replay("Activity")})
 		}
 	})
 	shapes := [][]int{{1}, {2}, {1, 1}, {2, 1}, {1, 2}, {3}, {1, 1, 1}, {1, 3}, {2, 2}, {3, 1}, {1, 1, 2}, {1, 2, 1}}
